@@ -93,6 +93,20 @@ def run(ctx):
     total["cases"] += tsumm["cases"]
     total["evals"] += tsumm["evals"]
     total["nontrivial"] += tsumm["nontrivial"]
+    # the stored documents may have arrived in partly repeated bulks (proxy retries): what a token finds may not depend on it.
+    # Redeliver.tla's exhaustive histories (C17's module; its driver searches every document by its own token after each step)
+    rdrv = vlib.build_driver("redeliver")
+    rcf = os.path.join(ctx.scratch, "search-redeliver.jsonl")
+    r5 = vlib.run_tlc(ctx, "Redeliver.tla", "Redeliver_exh.cfg", case_file=rcf, workers=1, timeout=3400)
+    if r5.violated:
+        raise vlib.Infra("TLC: %s violated in Redeliver.tla" % r5.violated)
+    vlib.require_tlc_ok(r5, "Redeliver (for C02)")
+    mism, rsumm, _ = vlib.run_cases(ctx, rdrv, ["-workers", str(vlib.NCPU)], rcf, label="search-redeliver", timeout=3400)
+    for m in mism:
+        ctx.violation("search:redeliver:%s:%s" % (m.get("op"), (m.get("what") or "")[:24]), m,
+                      what="documents delivered in partly repeated bulks are not found by their own tokens / foreign documents are: " + str(m.get("what"))[:160])
+    for k in ("cases", "evals", "nontrivial"):
+        total[k] += rsumm[k]
     ctx.cov["traces_validated_against_impl"] = total["cases"]
     ctx.cov["evaluations"] = total["evals"]
     ctx.cov["distinct_nontrivial"] = total["nontrivial"]
